@@ -16,6 +16,7 @@ from .interp import (
     loops_in_order, _walk_same_scope,
 )
 from .values import (
+    set_term, ViewList,
     SV, SInt, SBool, SReal, SBytes, SStr, SSeq, SEnum, SOpaque, SObj, SymRecDict, Unsupported,
     Int, Bool, Real, Bytes, ByteArray, Str, ListOf, TupleOf, EnumOf, sort_of, has_sym, ISEQ, Sort,
 )
@@ -494,9 +495,7 @@ class Env:
         if is_slice:
             a, b = ops.slice_bounds(it, n, idx[1], idx[2])
             bb = z3.If(b < a, a, b)
-            obj.term = z3.simplify(
-                z3.Concat(z3.Extract(obj.term, z3.IntVal(0), a), ops.bytes_term(v), z3.Extract(obj.term, bb, n - bb))
-            )
+            set_term(obj, z3.Concat(z3.Extract(obj.term, z3.IntVal(0), a), ops.bytes_term(v), z3.Extract(obj.term, bb, n - bb)))
             return
         i, ok = ops._norm_index(it, idx, n)
         if not it.ctx.branch(ok):
@@ -504,9 +503,7 @@ class Env:
         vt = ops.int_term(v)
         if not it.ctx.branch(z3.And(vt >= 0, vt <= 255)):
             it.raise_exc(ValueError, "byte must be in range(0, 256)")
-        obj.term = z3.simplify(
-            z3.Concat(z3.Extract(obj.term, z3.IntVal(0), i), z3.Unit(vt), z3.Extract(obj.term, i + 1, n - i - 1))
-        )
+        set_term(obj, z3.Concat(z3.Extract(obj.term, z3.IntVal(0), i), z3.Unit(vt), z3.Extract(obj.term, i + 1, n - i - 1)))
 
     def sseq_store(self, it, obj, idx, v, is_slice):
         if is_slice:
@@ -515,9 +512,7 @@ class Env:
         i, ok = ops._norm_index(it, idx, n)
         if not it.ctx.branch(ok):
             it.raise_exc(IndexError, "list assignment index out of range")
-        obj.term = z3.simplify(
-            z3.Concat(z3.Extract(obj.term, z3.IntVal(0), i), z3.Unit(obj.elem.box(v)), z3.Extract(obj.term, i + 1, n - i - 1))
-        )
+        set_term(obj, z3.Concat(z3.Extract(obj.term, z3.IntVal(0), i), z3.Unit(obj.elem.box(v)), z3.Extract(obj.term, i + 1, n - i - 1)))
 
     # ----------------------------------------------------------------- symbolic methods
     def sym_method(self, it, obj, name, args, kwargs):
@@ -582,7 +577,7 @@ class Env:
         ctx = it.ctx
         y = ctx.ghost.get("yielded")
         if isinstance(y, SSeq):
-            y.term = z3.simplify(z3.Concat(y.term, z3.Unit(y.elem.box(v))))
+            set_term(y, z3.Concat(y.term, z3.Unit(y.elem.box(v))))
         else:
             ctx.yielded.append(snapshot(v))
         con = it.top_contract
